@@ -203,6 +203,17 @@ def check_primitive(ctx, fi, spec, flags):
     qsym = spec['quality']
     if isinstance(qv, Alg) and qv.is_rat() and len(qv.rat().symbols()) == 1 and qv.eq(sym(list(qv.rat().symbols())[0])):
         qsym = list(qv.rat().symbols())[0]      # the quality vector is a plain copy / array view of another local
+    if qsym not in L.symbols():
+        # the quality vector lives in a local of another name: it is the vector symbol the shift `max(.)` / `lse(.)` refers to, or the only
+        # symbol of the logits that is neither the budget nor the sensitivity
+        syms = set(L.symbols())
+        shifted = {x[4:-1] for x in syms if x.startswith(('max(', 'lse(', 'min(')) and x.endswith(')')} & syms
+        others = {x for x in syms if x.split('@')[0] not in (spec['eps'], spec['sens'], 'sensitivity', spec.get('base'))
+                  and not x.startswith(('max(', 'min(', 'lse(', 'log('))}
+        if len(shifted) == 1:
+            qsym = shifted.pop()
+        elif len(others) == 1:
+            qsym = others.pop()
     coef = L.diff(qsym)
     linear = qsym not in coef.symbols()
     eps = ex.env.get(spec['eps'])
@@ -210,6 +221,9 @@ def check_primitive(ctx, fi, spec, flags):
         sens = ex.env.get(spec['sens'])
     else:
         sens = ex.env.get('sensitivity')
+        if not isinstance(sens, Alg) and isinstance(eps, Alg) and linear and not coef.iszero():
+            # the primitive computes its own sensitivity in a local (whatever it is called): read it off the coefficient eps/(2*sens)
+            sens = Alg(eps.rat() / (Rat.const(2) * coef))
     if not isinstance(eps, Alg) or not isinstance(sens, Alg):
         raise AnalysisError('%s [%s]: eps / sensitivity not scalar' % (fi.qualname, label))
     want = eps.rat() / sens.rat() if flags.get('monotonic') else eps.rat() / (Rat.const(2) * sens.rat())
@@ -267,7 +281,7 @@ def check_key_alignment(ctx):
     # the returned key comes from the same list
     rets = [r for r in walk_shallow(fi.node) if isinstance(r, ast.Return)]
     for r in rets:
-        ok = isinstance(r.value, ast.Subscript) and U(r.value.value) == 'keys'
+        ok = isinstance(r.value, ast.Subscript) and U(r.value.value) == it_q
         ctx.ob('key-aligned', fi, r, ok, 'the selected index must be mapped back through the same key list')
 
 
